@@ -66,9 +66,10 @@ RECURSIVE InsertRangeOK(_, _, _)
 InsertRangeOK(s, es, t) ==
     IF es = <<>> THEN t = s
     ELSE IF ~Multi /\ Count(s, es[1][1]) > 0 THEN InsertRangeOK(s, Tail(es), t)
-    ELSE \E p \in Lower(s, es[1][1]) .. Upper(s, es[1][1]) :
-            \* the place of an entry that survives to t is fixed by t itself: only try places consistent with t
-            /\ InsertRangeOK(InsertAt(s, p, es[1]), Tail(es), t)
+    ELSE \E d \in 0 .. (Upper(s, es[1][1]) - Lower(s, es[1][1])) :
+            \* any place inside the run of equivalent keys; the places are tried from the END of the run backwards: that is where the std containers and the
+            \* B+ tree put a new entry, so a correct execution is explained by the first path (tried from the front, a range of n equal keys cost n! paths)
+            LET p == Upper(s, es[1][1]) - d IN InsertRangeOK(InsertAt(s, p, es[1]), Tail(es), t)
 
 \* bulk_load(sorted range) into an empty container: exactly the range
 BulkLoadOK(s, es, t) == s = <<>> /\ WellFormed(es) /\ t = es
